@@ -33,6 +33,7 @@ def handle (st : DState) (line : String) : DState × String :=
   | ["prog"] => (st, doProg st.cur)
   | "caps" :: fields => (st, doCaps st.cur fields)
   | "capsR" :: fields => (st, doCaps st.cur fields)
+  | "capsB" :: fields => (st, doCapsB st.cur fields)
   | "chartab" :: fields => (st, doChartab fields)
   | "iter" :: fields => (st, doIter st.cur fields)
   | "riter" :: fields => (st, doRiter st.cur fields)
